@@ -138,6 +138,18 @@ CHECKS = {
         "Trusted: numpy kron/matmul (not tensordot/moveaxis). Cups/caps on atoms with non-palindromic "
         "multi-wire images are refused by the library and counted as out_of_scope_refusals.",
         "DESIGN.md 4/C09"),
+    "C19": (
+        "exhaustive enumeration of all cartesian diagrams up to the bound, called through the real "
+        "PythonFunctor on symbolic inputs and compared with a reference wire machine",
+        "Every cartesian diagram over boxes of every arity shape (0..2 -> 0..2) with injective symbolic "
+        "functions plus SWAP/COPY/DISCARD up to the depth/width bound is called on distinct symbolic inputs; "
+        "the result must equal what the wire machine computes (apply each box to the wires at its offset, "
+        "splice outputs back) under the documented one-wire/tuple convention. Swap(l, r), Copy(n), Discard(n) "
+        "for all widths up to the bound, and naturality of swap, copy and discard for every ordered pair of "
+        "boxes of the alphabet, are checked on all symbolic inputs.",
+        "Symbolic string outputs make equality of results equality of wiring terms. Values are atoms, never "
+        "tuples (a tuple-valued wire is indistinguishable from two wires in the library's convention).",
+        "DESIGN.md 4/C19"),
 }
 
 PENDING_REASON = ("check not built yet in this session (planned: bounded exhaustive exploration as in "
